@@ -36,7 +36,43 @@ func c12PlaceV0(run *evid.Run, i int, rng *rand.Rand, items []placeItem, j *Jour
 	for k := 1 + rng.Intn(2); k > 0; k-- {
 		bad[rng.Intn(n)] = true
 	}
+	// every other chain is built so that one legacy entry links to a block of ANOTHER codec (a dag-cbor entry block):
+	// the legacy decoder is then handed a node that is not a protobuf node
+	foreignAt := -1
+	var foreignRaw []byte
+	var foreignCidV cid.Cid
+	if i%2 == 0 && n >= 3 {
+		foreignAt = 1 + rng.Intn(n-2)
+		wc := hx.NewWorld(run.Seed, 1, "A", "hash", "cbor")
+		fe, err := wc.NewLog(0).Append(wc.Ctx, []byte("cbor block inside a legacy log"), nil)
+		if err == nil {
+			foreignCidV = fe.GetHash()
+			foreignRaw, _ = wc.Store.Raw(foreignCidV)
+			// rebuild the chain above the foreign block so that its successor names the cbor CID
+			cids, raws = cids[:foreignAt], raws[:foreignAt]
+			prev := foreignCidV
+			for k := foreignAt; k < n; k++ {
+				v := map[string]any{"hash": nil, "id": "A", "payload": fmt.Sprintf("v0-%d-%d", i, k), "next": []any{prev.String()}, "v": 0,
+					"clock": map[string]any{"id": v0Key, "time": k}, "key": v0Key, "sig": v0Sig}
+				jb, _ := json.Marshal(v)
+				raw, c := pbBlock(jb)
+				cids = append(cids, c)
+				raws = append(raws, raw)
+				prev = c
+			}
+			for k := range bad {
+				if k < foreignAt {
+					delete(bad, k)
+				}
+			}
+		} else {
+			foreignAt = -1
+		}
+	}
 	st := store.New()
+	if foreignAt >= 0 {
+		st.PutRaw(foreignCidV, foreignRaw)
+	}
 	var edits []string
 	for k := range cids {
 		st.PutRaw(cids[k], raws[k])
@@ -47,10 +83,16 @@ func c12PlaceV0(run *evid.Run, i int, rng *rand.Rand, items []placeItem, j *Jour
 		}
 	}
 	w.Store = st
-	// expected: from the head down to (not including) the newest hostile block
+	// expected: from the head down to (not including) the newest hostile block / the foreign-codec block
 	want := 0
 	for k := n - 1; k >= 0 && !bad[k]; k-- {
+		if foreignAt >= 0 && k < foreignAt {
+			break
+		}
 		want++
+	}
+	if foreignAt >= 0 {
+		edits = append(edits, fmt.Sprintf("entry %d links to a dag-cbor block", foreignAt))
 	}
 	j.Log(map[string]any{"case": i, "edits": edits, "position": "v0-chain", "loader": "hash"})
 	var loaded *ipfslog.IPFSLog
